@@ -25,6 +25,9 @@ ASSUMPTIONS = ["each (N, K, p) is an exact identity check at one rational point;
                "general-N algebra is argued in DESIGN.md, not machine-checked"]
 
 
+BUFFERS = {}
+
+
 def probs(weights):
     s = sum(weights)
     return [Fraction(w, s) for w in weights]
@@ -97,8 +100,11 @@ def check_one(case, rec):
                 elif not math.isnan(sd):
                     raise Violation("stdpc_n-negative-variance", f"stdpc_n({counts}) = {sd!r} though varpc_n = {fvar!r} < 0")
                 if case.get("samples", False):
-                    sample = [label(i, "prefix" if N % 2 else "suffix_digits") for i, c in enumerate(counts) for _ in range(c)]
-                    sample = sample[::2] + sample[1::2]
+                    fresh = [label(i, "prefix" if N % 2 else "suffix_digits") for i, c in enumerate(counts) for _ in range(c)]
+                    fresh = fresh[::2] + fresh[1::2]
+                    # one buffer object per N, refilled in place for every count vector (as a simulation loop would do)
+                    sample = BUFFERS.setdefault(N, list(fresh))
+                    sample[:] = fresh
                     ps = float(call("pc", pyrepseq.pc, sample))
                     if not close(ps, v, 1e-12):
                         raise Violation("pc-sample-vs-pc_n", f"pc(sample of {counts}) = {ps!r}, exact {v}")
@@ -132,6 +138,9 @@ def label(i, style):
         return "CASSLGQAYEQYF"[: i + 2]
     if style == "suffix_digits":
         return "c1" + "0" * i
+    if style == "table_rows":
+        # two-column rows whose texts run into each other when joined without a separator: V1|11C, V11|1C, V111|C
+        return ("V" + "1" * (i + 1), "1" * (3 - i) + "C")
     return f"cat{i}"
 
 
@@ -149,7 +158,13 @@ def check_two(case, rec):
         for c2 in O.compositions(N2, K):
             pr2 = multinomial_prob(c2, q)
             s2 = [label(i, style) for i, c in enumerate(c2) for _ in range(c)]
-            v = float(call("pc2", pyrepseq.pc, s1, s2))
+            if style == "table_rows":
+                import pandas as pd
+                a1 = pd.DataFrame(s1, columns=["TRBV", "CDR3B"])
+                a2 = pd.DataFrame(s2, columns=["TRBV", "CDR3B"])
+                v = float(call("pc2", pyrepseq.pc, a1, a2))
+            else:
+                v = float(call("pc2", pyrepseq.pc, s1, s2))
             exact = Fraction(sum(a * b for a, b in zip(c1, c2)), N1 * N2)
             if not close(v, exact, 1e-12):
                 raise Violation("pc2-value", f"pc({s1},{s2}) = {v!r}, exact {exact}")
@@ -174,7 +189,7 @@ def two_case(draw, tier="quick"):
     return {"N1": draw(st.integers(1, top)), "N2": draw(st.integers(1, top)),
             "p": draw(st.lists(st.integers(1, 12), min_size=K, max_size=K)),
             "q": draw(st.lists(st.integers(1, 12), min_size=K, max_size=K)),
-            "labels": draw(st.sampled_from(["int", "prefix", "prefix", "suffix_digits", "equal_width"]))}
+            "labels": draw(st.sampled_from(["int", "prefix", "prefix", "suffix_digits", "equal_width", "table_rows"]))}
 
 
 def enum_grid(tier):
